@@ -307,6 +307,7 @@ class Ctx:
 
     def violation(self, key, what, witness):
         full = key if key.startswith(self.prop + "/") else "%s/%s" % (self.prop, key)
+        full = full.replace(" ", "-")      # keys are printed in 'key=<...>' lines: no blanks
         v = self.violations.setdefault(full, {"count": 0, "what": what, "witnesses": []})
         v["count"] += 1
         if len(v["witnesses"]) < 3:
